@@ -1,2 +1,117 @@
--- stub: replaced when the area is built
-def main : IO Unit := pure ()
+import Nstd.Common.Basic
+import Nstd.Hash.Model
+/-
+  Line protocol of the Hash area (HashMap / HashSet / PoolMap).
+
+    cfg <map|set|pool> <hashmode> <D>    choose container, hash function of the key type, key domain 0..D-1;
+                                         both tables are default-constructed
+    new t cap | newdef t | copy t | assign t | append t k v | prepend t k v | insert t pos k v
+    remove t k | removeAt t pos | removeVal t pos | removeFront t | removeBack t | clear t | swap t
+    appendAll t | removeAll t | setval t k v | hashstr <hex>
+
+  After every op one line:
+     <result> || <table 0> || <table 1> || eq=<t0==t1> <t1==t0> <t0==t0>
+  with  <table> = n=<size> e=<isEmpty> it=<k:v,...|-> f=<find(0)>,<find(1)>,... c=<contains bits> fr=<front|-> bk=<back|->
+  Everything printed is obtained through `step` (queries are ops of the model).
+  An op the container does not have / an invalid iterator prints `bad-op` (state unchanged).
+-/
+open Nstd.Common
+namespace Nstd.Hash
+
+structure DState where
+  kind : Kind
+  mode : Nat
+  dom : Nat
+  st : State
+
+def hashFn (mode : Nat) (k : Nat) : Nat :=
+  if mode = 0 then k
+  else if mode = 1 then 7
+  else if mode = 2 then k % 2
+  else if mode = 3 then 2 ^ 64 - 1 - k      -- (usize)~k: huge hash codes
+  else k / 2
+
+def dinit : DState := ⟨Kind.map, 0, 6, init⟩
+
+def outStr : Out → String
+  | .unit => "unit"
+  | .num n => s!"num {n}"
+  | .onum (some n) => s!"{n}"
+  | .onum none => "-"
+  | .flag b => if b then "1" else "0"
+  | .entries l => if l.isEmpty then "-" else ",".intercalate (l.map (fun e => s!"{e.1}:{e.2}"))
+
+def query (d : DState) (op : Op) : String :=
+  match step d.kind (hashFn d.mode) d.st op with
+  | some (_, o) => outStr o
+  | none => "-"
+
+def numOnly (s : String) : String := if s.startsWith "num " then (s.drop 4).toString else s
+
+def obsTable (d : DState) (t : Bool) : String :=
+  let keys := List.range d.dom
+  s!"n={numOnly (query d (.size t))} e={query d (.isEmpty t)} it={query d (.iterate t)} " ++
+  s!"f={",".intercalate (keys.map (fun k => query d (.find t k)))} " ++
+  s!"c={String.join (keys.map (fun k => query d (.contains t k)))} " ++
+  s!"fr={numOnly (query d (.front t))} bk={numOnly (query d (.back t))}"
+
+def obs (d : DState) (res : String) : String :=
+  s!"{res} || {obsTable d false} || {obsTable d true} || " ++
+  s!"eq={query d (.equal false true)} {query d (.equal true false)} {query d (.equal false false)}"
+
+def tab (s : String) : Option Bool :=
+  if s = "0" then some false else if s = "1" then some true else none
+
+def parseOp (ws : List String) : Option Op :=
+  match ws with
+  | ["new", t, c] => do pure (.construct (← tab t) (← c.toNat?))
+  | ["newdef", t] => do pure (.constructDefault (← tab t))
+  | ["copy", t] => do pure (.copyFrom (← tab t))
+  | ["assign", t] => do pure (.assign (← tab t))
+  | ["append", t, k, v] => do pure (.append (← tab t) (← k.toNat?) (← v.toNat?))
+  | ["prepend", t, k, v] => do pure (.prepend (← tab t) (← k.toNat?) (← v.toNat?))
+  | ["insert", t, p, k, v] => do pure (.insert (← tab t) (← p.toNat?) (← k.toNat?) (← v.toNat?))
+  | ["remove", t, k] => do pure (.removeKey (← tab t) (← k.toNat?))
+  | ["removeAt", t, p] => do pure (.removeAt (← tab t) (← p.toNat?))
+  | ["removeVal", t, p] => do pure (.removeValue (← tab t) (← p.toNat?))
+  | ["removeFront", t] => do pure (.removeFront (← tab t))
+  | ["removeBack", t] => do pure (.removeBack (← tab t))
+  | ["clear", t] => do pure (.clear (← tab t))
+  | ["swap", t] => do pure (.swap (← tab t))
+  | ["appendAll", t] => do pure (.appendAll (← tab t))
+  | ["removeAll", t] => do pure (.removeAll (← tab t))
+  | ["setval", t, k, v] => do pure (.setValue (← tab t) (← k.toNat?) (← v.toNat?))
+  | _ => none
+
+def parseKind (s : String) : Option Kind :=
+  if s = "map" then some .map else if s = "set" then some .set else if s = "pool" then some .pool else none
+
+def stepLine (d : DState) (ws : List String) : DState × String :=
+  match ws with
+  | ["reset"] => (dinit, obs dinit "unit")
+  | ["cfg", k, m, n] =>
+    match parseKind k, m.toNat?, n.toNat? with
+    | some k, some m, some n =>
+      let d' : DState := ⟨k, m, n, init⟩
+      (d', obs d' "unit")
+    | _, _, _ => (d, "bad-op")
+  | ["hashstr", x] =>
+    match fromHex x with
+    | some bs =>
+      (d, match hashString (bs ++ [0]) bs.length with
+          | some v => s!"num {v}"
+          | none => "FAULT")
+    | none => (d, "bad-op")
+  | _ =>
+    match parseOp ws with
+    | none => (d, "bad-op")
+    | some op =>
+      match step d.kind (hashFn d.mode) d.st op with
+      | some (st', o) =>
+        let d' := { d with st := st' }
+        (d', obs d' (outStr o))
+      | none => (d, "bad-op")
+
+end Nstd.Hash
+
+def main : IO Unit := Nstd.Common.ioLoop Nstd.Hash.dinit Nstd.Hash.stepLine
